@@ -100,6 +100,12 @@ func genC14(r *Rng, tier string) *Plan {
 	if r.Chance(1, 3) {
 		g.MakeCsrLeaf()
 	}
+	// hand-edited artifacts: the key or request block moved above the hash line
+	for _, e := range g.Ents {
+		if r.Chance(1, 8) {
+			g.P.Add(Op{K: "key-above-hash", Ent: e.ID, Label: "key-above-hash"})
+		}
+	}
 	// hand-edited artifacts: text after the last block (blank line, comment, CRLF) - the file still
 	// holds the key / the request
 	for _, e := range g.Ents {
